@@ -155,18 +155,19 @@ pub trait Interface: ErrorHandler {
     
             read_offset = read_end;
  
-            // Ensure `read_from` does not exceed the buffer length
+            // If there is processed data, shift the unprocessed data to the beginning of the buffer.
+            if proc_offset > 0 {
+                cmd_buf.copy_within(proc_offset..read_end, 0);
+                read_offset -= proc_offset;
+                proc_offset = 0;
+            }
+
+            // Ensure `read_from` does not exceed the buffer length: the buffer is
+            // filled by a single unfinished message, which is discarded.
             if read_offset >= cmd_buf.len() {
                 #[cfg(feature = "defmt")]
                 defmt::warn!("SCPI buffer overflow, resetting buffer");
                 read_offset = 0;
-                proc_offset = 0;
-            }
-            // If there is unprocessed data, shift it to the beginning of the buffer.
-            else if proc_offset > 0 {
-                cmd_buf.copy_within(proc_offset..read_end, 0);
-                read_offset -= proc_offset;
-                proc_offset = 0;
             }
         }
     }
